@@ -57,6 +57,13 @@ theorem force_once :
 
 end
 
+/-- the model performs the state test and the state store of `shutdown()` / `forceClose()` /
+`forceCloseWithDelay()` as ONE step (`act`).  That is what the code does only because each is a
+single atomic compare-and-swap on the state word - extracted from the source on every run.  With a
+separate test and store, a close on the loop thread can slip in between and the store revives the
+connection: it is then taken down, and reported DOWN, a second time (F27). -/
+theorem gate_atomic : gateAtomic = true := rfl
+
 /-- the moment the FIN is emitted on a connection that is up, the backlog is empty -/
 theorem fin_emitted_clean (c : Conn) (hi : FlowInv c) (hu : c.st ≠ .kDisconnected)
     (h : (shutdownInLoop c).shutWr = true) (h0 : c.shutWr = false) : c.outBuf = [] :=
